@@ -263,8 +263,8 @@ theorem C22_discharged_sites_cite_lemmas :
 /-- Summary of the classification (changes with the table; recorded so that a reclassification is visible). -/
 theorem C22_classification_counts :
     (fatalExpectations.map (fatalClassTag ·.cls)).count "discharged" = 9 ∧
-    (fatalExpectations.map (fatalClassTag ·.cls)).count "reported-invariant" = 32 ∧
-    (fatalExpectations.map (fatalClassTag ·.cls)).count "reachable" = 2 ∧
+    (fatalExpectations.map (fatalClassTag ·.cls)).count "reported-invariant" = 34 ∧
+    (fatalExpectations.map (fatalClassTag ·.cls)).count "reachable" = 0 ∧
     (fatalExpectations.map (fatalClassTag ·.cls)).count "outside-compile" = 11 := by decide
 
 /-! ## What is not proved
@@ -272,10 +272,10 @@ theorem C22_classification_counts :
 The full statement of the property — for every text `compiler.Compile` terminates without panic or exit — is
 about the real implementation; no Lean model of `Compile` exists, so it is not a theorem here. What the
 theorems above give: the position arithmetic is right for all inputs (Part 1), 9 of the 54 explicit crash sites
-are dead (Parts 2 and 3), and the inventory is complete and current (Part 3). The 32 `reportedInvariant` sites,
-implicit run-time panics (nil, index, stack overflow) and termination rest on the correspondence runs. For the
-tree as classified, crash freedom is REFUTED by the two `reachable` sites (`[C22-lalrk-optimize]`,
-`[C22-greedy-lookback]`) and by three implicit panics found by the harness (`[C22-addtypes-minus-one]`,
-`[C22-argrefs-stale-after-instantiate]`, `[C22-recursive-set-instantiate]`); fixes: /verif/fixes/C22-*.diff. -/
+are dead (Parts 2 and 3), and the inventory is complete and current (Part 3). The 34 `reportedInvariant` sites,
+implicit run-time panics (nil, index, stack overflow) and termination rest on the correspondence runs. Six
+crashes were found by those runs and repaired in /repo (`[C22-lalrk-optimize]`, `[C22-greedy-lookback]`,
+`[C22-bison-stringify]`: explicit sites; `[C22-addtypes-minus-one]`, `[C22-argrefs-stale-after-instantiate]`,
+`[C22-recursive-set-instantiate]`: implicit panics); their witnesses stay in the harness's stream. -/
 
 end TmVerif.C22
